@@ -378,6 +378,9 @@ get_wrapper_by_unique_name(const string &unique_name) {
   // wrapper_hash_name.
 
   // The first four characters are always the library_name.
+  if (unique_name.size() < 4) {
+    return 0;
+  }
   string library_hash_name = unique_name.substr(0, 4);
   string wrapper_hash_name = unique_name.substr(4);
 
